@@ -240,7 +240,9 @@ pub fn run(ctx: &Ctx) -> i32 {
     replay_known(ctx, &stats, &mut report, &replay);
     replay_regressions(ctx, &stats, &mut report, &replay);
     crate::props::c02::KNOWN_ID_REUSE.store(ctx.open_any("layout.segment_id_reuse"), std::sync::atomic::Ordering::Relaxed);
-    EXCL_COUNT.store(ctx.open_any("agg.special_fields_skipped"), std::sync::atomic::Ordering::Relaxed);
+    // every observation of this check is made with all data flushed: segments are per event type, so the
+    // open aggregate finding (event type not applied to in-memory rows) cannot pollute COUNT here
+    EXCL_COUNT.store(ctx.open("compaction.partial_drain"), std::sync::atomic::Ordering::Relaxed);
     let cases = ctx.tier.pick(96, 1500);
     let tier = ctx.tier;
     if let Some(f) = explore(ctx, "rounds", || case_strategy(tier), Explore { cases, max_shrink_iters: ctx.tier.pick(80, 400), lanes: ctx.lanes }, &stats, run_case) {
